@@ -507,12 +507,14 @@ func (w *World) opDelete(op Op) *Resp {
 			delete(mr.blobs, d)
 			if _, isMan := mr.mans[d]; isMan {
 				mr.blobDeleted[d] = true
+				w.orphanDependants(mr, d)
 			}
 		case ok:
 			if r.Code == 202 || r.Code == 404 {
 				delete(mr.blobs, d)
 				if _, isMan := mr.mans[d]; isMan {
 					mr.blobDeleted[d] = true
+					w.orphanDependants(mr, d)
 				}
 			}
 		default:
@@ -604,6 +606,24 @@ func (w *World) opDelete(op Op) *Resp {
 		return r
 	}
 	return nil
+}
+
+// orphanDependants: the content of manifest d is gone (deleted through the blob endpoint) while its index entry stays.
+// What only d kept reachable - children that were moved to the child list, referrers - is in the same position as
+// after a delete of d (same known families).
+func (w *World) orphanDependants(mr *MRepo, d string) {
+	if x, ok := mr.mans[d]; ok {
+		for _, c := range x.view.children {
+			if _, ok := mr.mans[c]; ok {
+				mr.orphans[c] = "child of a deleted index"
+			}
+		}
+		for ad, a := range mr.mans {
+			if a.view.subject == d {
+				mr.orphans[ad] = "referrer of a deleted subject"
+			}
+		}
+	}
 }
 
 func (w *World) deleteManifest(mr *MRepo, d string) {
